@@ -219,3 +219,109 @@ def bounded_checks(tier, seed):
     return [{"check": "packages_vs_cpython_import", "tool": "generated acyclic packages imported by CPython; names visible per module, __all__, and the defining object of every name vs. the loaded+resolved Griffe tree",
              "bound": f"3 modules; 400 exhaustive-style graphs + {n_random} random graphs of 1-3 statements per module over definitions, __all__ forms (incl. assembled from another module's __all__), absolute/relative/aliased/wildcard imports",
              "cases": d["cases"], "not_importable_for_cpython": d["not_importable"], "failing": len(d["bad"]), "wall_s": round(time.time() - t0, 1), "class_match": True, "violations": d["bad"]}]
+
+
+@contract("C05", "expand_exports.per_export", [LD + "expand_exports"], floor=4, replay="replay_packages", split=16)
+def c_expand_exports(P):
+    """One generic item of __all__ from an arbitrary accumulated list: a string is kept as is; a reference to another module's __all__ is replaced by that
+    module's exports *as they are after that module has itself been expanded* (the referenced module is expanded first unless already seen, its exports are
+    read afterwards), skipped when the module is not loaded; the module's exports are replaced by the accumulated list; seen gains the module's path."""
+    ld = SObj("GriffeLoader", {"modules_collection": SObj("ModulesCollection", {}, ident=z3.Int("coll_id"), frozen=True)}, ident=z3.Int("loader_id"))
+    mpath = P.fresh_str("module_path")
+    IS_REF = z3.Function("EXPORT_IS_REFERENCE", IntS, BoolS)
+    EXPORT_STR = z3.Function("EXPORT_STRING", IntS, StrS)
+    REF_PATH = z3.Function("EXPORT_REFERENCE_PATH", IntS, StrS)
+
+    def mk_export(i):
+        zi = zint(i)
+        return SUnion([(IS_REF(zi), SObj("ExprName", {"canonical_path": SStr(REF_PATH(zi)), "__index": SInt(zi)}, ident=z3.Function("EXPORT_NAME", IntS, IntS)(zi), frozen=True)),
+                       (z3.Not(IS_REF(zi)), SStr(EXPORT_STR(zi)))])
+    exports = sym_seq(P, "exports", mk_export)
+    module = SObj("Module", {"path": mpath, "exports": exports, "modules": {}}, ident=z3.Int("module_id"))
+    P.attr_hooks[("Module", "path")] = lambda P_, o: o.fields["path"]
+    P.attr_hooks[("Module", "modules")] = lambda P_, o: o.fields["modules"]
+    P.attr_hooks[("ExprName", "canonical_path")] = lambda P_, o: o.fields["canonical_path"] if "canonical_path" in o.fields else models.NOATTR
+    # the referenced module: not loaded, or a module whose exports are OLD before and NEW after its own expansion
+    loaded = z3.Bool("referenced_module_is_loaded")
+    nm_path = P.fresh_str("referenced_module_path")
+    OLD, NEW = z3.Function("REFERENCED_EXPORTS_BEFORE", IntS, StrS), z3.Function("REFERENCED_EXPORTS_AFTER", IntS, StrS)
+    old_exports = sym_seq(P, "referenced_exports_before", lambda i: SStr(OLD(zint(i))))
+    new_exports = sym_seq(P, "referenced_exports_after", lambda i: SStr(NEW(zint(i))))
+    next_module = SObj("Module", {"path": nm_path, "exports": old_exports, "modules": {}}, ident=z3.Int("referenced_module_id"))
+    P.assume(next_module.ident != module.ident)
+    log = []
+
+    def get_member(P_, a, k):
+        log.append(("lookup", a[1]))
+        if P_.branch(loaded):
+            return next_module
+        raise PyExc(P_.mk_exc("KeyError", "not loaded"))
+    P.opaque_hooks["_griffe.mixins:GetMembersMixin.get_member"] = get_member
+    P.opaque_hooks["_griffe.collections:ModulesCollection.get_member"] = get_member
+
+    def rec(P_, a, k):
+        # callee contract (modular recursion): the module's exports are replaced by their expansion, its path is marked seen
+        m = a[1]
+        log.append(("expand", m))
+        if m is next_module:
+            m.fields["exports"] = new_exports
+        return None
+    seen_in = z3.Bool("referenced_module_already_seen")
+    q = LD + "expand_exports"
+    from pyvc.models import SymSet
+
+    def hint_expanded(P_, nm):
+        return sym_seq(P_, "expanded_so_far", lambda i: SStr(z3.Function("EXPANDED_SO_FAR", IntS, StrS)(zint(i))))
+    marks = {}
+
+    def post_body(P_, before, after):
+        exp_before, exp_after = before["expanded"], after["expanded"]
+        raw = after["export"]
+        export = P_.choose(raw) if isinstance(raw, SUnion) else raw
+        nb = zint(P_.seq_len(P_.to_seq(exp_before)))
+        if isinstance(export, SStr):
+            last = P_.seq_at(P_.to_seq(exp_after), mk_int(nb))
+            P_.prove("a_string_export_is_kept_as_is", zint(P_.seq_len(P_.to_seq(exp_after))) == nb + 1)
+            P_.prove("a_string_export_is_kept_as_is.value", last is raw or last is export)
+            return
+        expands = [e for e in log if e[0] == "expand"]
+        lookups = [e for e in log if e[0] == "lookup"]
+        P_.prove("the_referenced_module_is_looked_up_once", len(lookups) == 1)
+        if not expands and exp_after is exp_before:
+            P_.prove("an_unloaded_or_unreadable_module_adds_nothing", True)
+            return
+        # whatever was added comes from the referenced module's exports as they are *now*
+        if isinstance(exp_after, loops.SCat) or not (exp_after is exp_before):
+            src = next_module.fields["exports"]
+            added = exp_after
+            P_.ghost["added_from"] = src
+            P_.prove("exports_are_read_after_the_referenced_module_was_expanded", (not expands) or src is new_exports)
+            P_.prove("added_names_come_from_the_current_exports_of_the_referenced_module", _reads_only(P_, added, exp_before, src), src=("after" if src is new_exports else "before"))
+    P.opaque_hooks[LD + "expand_exports"] = rec
+    P.loop_specs[(q, 1)] = dict(mode="inv", name="exports", hints={"expanded": hint_expanded, "export": lambda P_, nm: None, "next_module": lambda P_, nm: None,
+                                                                      "module_path": lambda P_, nm: P_.fresh_str(nm)},
+                                post_body=post_body, may_write=("exports",))
+    seen = SymSet(items=[], parts=[])
+    P.ghost["seen_set"] = seen
+    # `next_module.path not in seen`: either way
+    P.attr_hooks[("Module", "path")] = lambda P_, o: o.fields["path"]
+    kind, res = outcome(P, lambda: call(P, q, ld, module, None))
+    if kind == "raise":
+        P.prove("never_raises", False, exc=P.resolve_cls(res))
+        return
+    P.prove("module_exports_replaced_by_the_accumulated_list", module.fields["exports"] is not exports or zint(exports.len) == 0)
+    P.cover("expand_exports")
+
+
+def _reads_only(P, added, before, src):
+    """The value appended to `before` is a filtered read of `src` (the engine's summary of `[e for e in src if e not in expanded]`)."""
+    parts = added.parts if isinstance(added, loops.SCat) else None
+    if parts is None:
+        return False
+    tail = [p for p in parts if not (p is before or (isinstance(p, list) and not p))]
+    ok = True
+    for p in tail:
+        base = p.seq if isinstance(p, loops.SFilter) else (p[0].seq if isinstance(p, tuple) and isinstance(p[0], loops.SFlat) else None)
+        if base is None or base is not src:
+            ok = False
+    return ok and bool(tail)
